@@ -1,5 +1,3 @@
 package sim
 
 // Scenario payload stubs (replaced as scenarios are implemented).
-
-type LifeCase struct{}
